@@ -190,6 +190,8 @@ def jobs(tier, seed):
                        'cfg': {'cir': 8, 'cbs': 4, 'pir': pir, 'pbs': pbs, 'n': n, 'sorts': sort}})
     js.append({'harness': 'trtb', 'weight': 5,
                'cfg': {'cir': 8, 'cbs': 4, 'pir': 16, 'pbs': 6, 'n': n, 'sorts': 'int', 'burst': [0] + [1] * (n - 1)}})
+    # a peak rate below the committed rate is a legal (if odd) configuration: the peak bucket still fills at PIR
+    js.append({'harness': 'trtb', 'weight': 12, 'cfg': {'cir': 16, 'cbs': 4, 'pir': 8, 'pbs': 3, 'n': 3, 'sorts': 'int'}})
     # bucket sizes of 0 are sizes like any other (nothing is ever saved up: every packet waits for its own tokens)
     js.append({'harness': 'trtb', 'weight': 10, 'cfg': {'cir': 8, 'cbs': 4, 'pir': 16, 'pbs': 0, 'n': 3, 'sorts': 'int'}})
     js.append({'harness': 'trtb', 'weight': 10, 'cfg': {'cir': 8, 'cbs': 0, 'pir': None, 'pbs': None, 'n': 3, 'sorts': 'int'}})
